@@ -1,8 +1,13 @@
 (* C07 proofs, part 4: one series behind 1..n readers of mixed temporality.  For every history of
-   Record and Collect operations, a delta reader is handed the aggregation of exactly the values recorded
-   since its previous collection, a cumulative reader the aggregation of all values so far; no point is
-   reported only when there is nothing to report.  (For an instrument kind whose addition is exact; the
-   double instrument is related to it in ProofsSim.) *)
+   Record and Collect operations, a delta reader is handed a point that represents exactly the values recorded
+   since its previous collection, a cumulative reader one that represents all values so far; no point is
+   reported only when there is nothing to report.
+
+   The proof is generic in what "the point h represents the list xs" means ([Rep h xs]): anything that holds
+   for the fresh aggregation and the empty list, is preserved by Aggregate and Merge, and does not depend on the
+   order of the list.  Instances: h = agg o c xs for an instrument kind with exact addition (below), and
+   "equal to agg o c xs up to the sum, and with the exact sum whenever the SPEC checks it" for both real
+   instrument kinds (ProofsMachine). *)
 From V Require Import C07.Spec C07.ProofsBucket C07.ProofsAgg.
 From Coq Require Import Lia ZifyBool ZifyNat Arith Permutation.
 Local Open Scope Z_scope.
@@ -27,67 +32,76 @@ Qed.
 Section Series.
 Variable o : ops.
 Variable c : cfg.
-Hypothesis He : exact_add o.
 Variable temps : list temp.
 Let n := length temps.
 
-Definition A (xs : list Z) : hist := agg o c xs.
-Definition opt_agg (xs : list Z) : option hist := match xs with [] => None | _ => Some (A xs) end.
+Variable Rep : hist -> list Z -> Prop.
+Hypothesis Rep_new : Rep (new_hist o c) [].
+Hypothesis Rep_agg : forall h xs v, Rep h xs -> Rep (aggregate o h v) (xs ++ [v]).
+Hypothesis Rep_merge : forall a b xs ys, Rep a xs -> Rep b ys -> Rep (merge o a b) (xs ++ ys).
+Hypothesis Rep_swap : forall h xs ys, Rep h (xs ++ ys) -> Rep h (ys ++ xs).
+
+(* an optional aggregation: absent only when there is nothing to represent *)
+Definition orep (m : option hist) (xs : list Z) : Prop :=
+  match m with None => xs = [] | Some h => Rep h xs end.
 Definition fastc : Prop := n = 1%nat /\ nth 0 temps TDelta = TDelta.
 
-Lemma A_nil : A [] = new_hist o c.
-Proof. reflexivity. Qed.
-Lemma A_snoc : forall xs v, aggregate o (A xs) v = A (xs ++ [v]).
-Proof. intros. unfold A, agg. rewrite fold_left_app. reflexivity. Qed.
-Lemma A_merge : forall xs ys, merge o (A xs) (A ys) = A (xs ++ ys).
-Proof. intros. apply merge_homomorphism_lemma. exact He. Qed.
-
-Lemma fold_merge_some : forall us w,
-  fold_left (merge_opt o c) (map A us) (Some (A w)) = Some (A (w ++ concat us)).
+Lemma fold_merge_some : forall hs us a w, Forall2 Rep hs us -> Rep a w ->
+  exists h, fold_left (merge_opt o c) hs (Some a) = Some h /\ Rep h (w ++ concat us).
 Proof.
-  induction us as [|u us IH]; intros w; cbn [map fold_left concat].
-  - rewrite app_nil_r. reflexivity.
-  - unfold merge_opt at 2. rewrite A_merge, IH, app_assoc. reflexivity.
+  intros hs us a w H. revert a w. induction H as [|x u hs us Hxu _ IH]; intros a w Ha; cbn [fold_left concat].
+  - exists a. rewrite app_nil_r. split; [reflexivity|exact Ha].
+  - unfold merge_opt at 2. destruct (IH (merge o a x) (w ++ u) (Rep_merge _ _ _ _ Ha Hxu)) as (h & Hf & Hr).
+    exists h. split; [exact Hf|]. rewrite app_assoc. exact Hr.
 Qed.
-Lemma fold_merge_none : forall us,
-  fold_left (merge_opt o c) (map A us) None = match us with [] => None | _ => Some (A (concat us)) end.
+Lemma fold_merge_none : forall hs us, Forall2 Rep hs us ->
+  orep (fold_left (merge_opt o c) hs None) (concat us) /\
+  (fold_left (merge_opt o c) hs None = None -> us = []).
 Proof.
-  intros [|u us]; [reflexivity|]. cbn [map fold_left concat].
-  unfold merge_opt at 2. rewrite <- A_nil, A_merge. cbn [app]. apply fold_merge_some.
+  intros hs us H. destruct H as [|x u hs us Hxu Hrest]; cbn [fold_left concat].
+  - split; [reflexivity|reflexivity].
+  - unfold merge_opt at 2 4.
+    destruct (fold_merge_some hs us (merge o (new_hist o c) x) u Hrest) as (h & Hf & Hr).
+    { apply (Rep_merge _ _ [] u Rep_new Hxu). }
+    rewrite Hf. split; [exact Hr|discriminate].
 Qed.
 
 (* what is known about reader r: [us] are the value lists of its stashed interval aggregations,
    [prev] (cumulative readers) the values it had been given at its previous collection *)
 Definition rinv (t : temp) (rs : rstate) (p cv total : list Z) : Prop :=
   exists us prev,
-    r_unrep rs = map A us /\ p = concat us ++ cv /\
+    Forall2 Rep (r_unrep rs) us /\ p = concat us ++ cv /\
     (r_entry rs = false -> us = []) /\
     (fastc -> r_entry rs = false) /\
     (t = TCumul -> total = prev ++ concat us ++ cv /\
-                   ((r_last rs = None /\ prev = []) \/ r_last rs = Some (A prev)) /\
+                   ((r_last rs = None /\ prev = []) \/ (exists l, r_last rs = Some l /\ Rep l prev)) /\
                    (r_entry rs = false -> prev = [])).
 
 Lemma rinv_intro : forall t rs p cv total us prev,
-  r_unrep rs = map A us -> p = concat us ++ cv ->
+  Forall2 Rep (r_unrep rs) us -> p = concat us ++ cv ->
   (r_entry rs = false -> us = []) ->
   (fastc -> r_entry rs = false) ->
   (t = TCumul -> total = prev ++ concat us ++ cv /\
-                 ((r_last rs = None /\ prev = []) \/ r_last rs = Some (A prev)) /\
+                 ((r_last rs = None /\ prev = []) \/ (exists l, r_last rs = Some l /\ Rep l prev)) /\
                  (r_entry rs = false -> prev = [])) ->
   rinv t rs p cv total.
 Proof. intros. exists us, prev. repeat (split; [assumption|]). assumption. Qed.
 
 Definition inv (st : sstate) (pend : list (list Z)) (total : list Z) : Prop :=
-  exists cv, s_cur st = opt_agg cv /\ length (s_rd st) = n /\ length pend = n /\
+  exists cv, orep (s_cur st) cv /\ length (s_rd st) = n /\ length pend = n /\
     forall r, (r < n)%nat -> rinv (nth r temps TDelta) (nth r (s_rd st) rstate0) (nth r pend []) cv total.
 
 Lemma inv_init : inv (sstate0 n) (repeat [] n) [].
 Proof.
-  exists []. cbn [sstate0 s_cur s_rd opt_agg].
+  exists []. cbn [sstate0 s_cur s_rd orep].
   split; [reflexivity|]. split; [apply repeat_length|]. split; [apply repeat_length|].
   intros r Hr. rewrite !nth_repeat.
-  apply (rinv_intro _ _ _ _ _ [] []); cbn [rstate0 r_unrep r_entry r_last map concat app]; try reflexivity.
-  intros _. split; [reflexivity|]. split; [left; split; reflexivity|reflexivity].
+  apply (rinv_intro _ _ _ _ _ [] []); cbn [rstate0 r_unrep r_entry r_last concat app].
+  - constructor.
+  - reflexivity.
+  - reflexivity.
+  - reflexivity.
+  - intros _. split; [reflexivity|]. split; [left; split; reflexivity|reflexivity].
 Qed.
 
 Lemma inv_record : forall st pend total v,
@@ -95,9 +109,9 @@ Lemma inv_record : forall st pend total v,
 Proof.
   intros st pend total v (cv & Hcur & Hl1 & Hl2 & Hr).
   exists (cv ++ [v]). cbn [record s_cur s_rd]. rewrite map_length. repeat split; try assumption.
-  - rewrite Hcur. destruct cv as [|x cv]; cbn [opt_agg].
-    + rewrite <- A_nil, A_snoc. reflexivity.
-    + rewrite A_snoc. reflexivity.
+  - cbn [orep]. destruct (s_cur st) as [h|]; cbn [orep] in Hcur.
+    + apply Rep_agg. exact Hcur.
+    + subst cv. apply (Rep_agg _ [] v Rep_new).
   - intros r Hlt. destruct (Hr r Hlt) as (us & prev & H1 & H2 & H3 & H4 & H5).
     rewrite (nth_map_in _ _ _ []) by lia. rewrite H2.
     apply (rinv_intro _ _ _ _ _ us prev); try assumption.
@@ -106,19 +120,12 @@ Proof.
       split; [rewrite Htot, !app_assoc; reflexivity|]. split; assumption.
 Qed.
 
-(* the verdict on one collection: nothing reported only if there is nothing to report, otherwise exactly
-   the aggregation of the expected values *)
-Definition ok (e : string * list Z) (out : option hist) : Prop :=
-  match out with None => snd e = [] | Some h => h = A (snd e) end.
+(* the verdict on one collection: nothing reported only if there is nothing to report, otherwise a point that
+   represents the expected values *)
+Definition ok (e : string * list Z) (out : option hist) : Prop := orep out (snd e).
 
 Definition expected (r : nat) (pend : list (list Z)) (total : list Z) : string * list Z :=
   if is_delta (nth r temps TDelta) then ("delta"%string, nth r pend []) else ("cumulative"%string, total).
-
-Lemma ok_opt_agg : forall name xs, ok (name, xs) (opt_agg xs).
-Proof. intros name [|x xs]; cbn [opt_agg ok snd]; reflexivity. Qed.
-
-Lemma A_perm_swap : forall xs ys, A (xs ++ ys) = A (ys ++ xs).
-Proof. intros. unfold A. apply agg_perm; [exact He|apply Permutation_app_comm]. Qed.
 
 Lemma inv_collect : forall st pend total r,
   inv st pend total -> (r < n)%nat ->
@@ -135,8 +142,8 @@ Proof.
     destruct (Hr 0%nat Hlt) as (us & prev & H1 & H2 & H3 & H4 & H5).
     specialize (H4 Hf). specialize (H3 H4). subst us. cbn [concat app] in H2.
     cbn [fst snd]. split.
-    + unfold expected. rewrite Ed, H2, Hcur. apply ok_opt_agg.
-    + exists []. cbn [s_cur s_rd opt_agg]. rewrite set_nth_length. repeat split; try assumption.
+    + unfold expected, ok. rewrite Ed. cbn [snd]. rewrite H2. exact Hcur.
+    + exists []. cbn [s_cur s_rd orep]. rewrite set_nth_length. repeat split; try assumption.
       intros r Hr'. assert (r = 0%nat) by lia. subst r.
       rewrite set_nth_same by lia.
       apply (rinv_intro _ _ _ _ _ [] prev); try assumption; try reflexivity.
@@ -156,32 +163,34 @@ Proof.
     assert (Hmid : forall r', (r' < n)%nat ->
                rinv (nth r' temps TDelta) (nth r' rd1 rstate0) (nth r' pend []) [] total).
     { intros r' Hr'. destruct (Hr r' Hr') as (us & prev & H1 & H2 & H3 & H4 & H5).
-      unfold rd1. rewrite Hcur. destruct cv as [|x cv]; cbn [opt_agg].
-      - apply (rinv_intro _ _ _ _ _ us prev); assumption.
+      unfold rd1. destruct (s_cur st) as [h|]; cbn [orep] in Hcur.
       - rewrite (nth_map_in _ _ _ rstate0) by lia.
-        apply (rinv_intro _ _ _ _ _ (us ++ [x :: cv]) prev); cbn [r_unrep r_entry r_last].
-        + rewrite H1, map_app. reflexivity.
+        apply (rinv_intro _ _ _ _ _ (us ++ [cv]) prev); cbn [r_unrep r_entry r_last].
+        + apply Forall2_app; [exact H1|constructor; [exact Hcur|constructor]].
         + rewrite H2, concat_app. cbn [concat]. rewrite !app_nil_r. reflexivity.
         + discriminate.
         + intros Hf. contradiction.
         + intros Ht. destruct (H5 Ht) as (Htot & Hl & _).
           split; [rewrite Htot, concat_app; cbn [concat]; rewrite !app_nil_r; reflexivity|].
-          split; [exact Hl|discriminate]. }
+          split; [exact Hl|discriminate].
+      - subst cv. apply (rinv_intro _ _ _ _ _ us prev); assumption. }
     clearbody rd1.
     destruct (Hmid r Hlt) as (us & prev & H1 & H2 & H3 & H4 & H5).
     rewrite app_nil_r in H2.
     destruct (r_entry (nth r rd1 rstate0)) eqn:Eentry; cbn [negb fst snd].
     + (* merge the stash, and for a cumulative reader what it was given before *)
-      rewrite H1, fold_merge_none.
-      set (merged := match us with [] => None | _ :: _ => Some (A (concat us)) end).
+      destruct (fold_merge_none _ _ H1) as [Hm Hmn].
+      set (merged := fold_left (merge_opt o c) (r_unrep (nth r rd1 rstate0)) None) in *.
       destruct (is_delta (nth r temps TDelta)) eqn:Ed.
       * split.
-        -- unfold expected. rewrite Ed, H2. unfold merged.
-           destruct us as [|u us]; cbn [ok snd concat app]; reflexivity.
-        -- exists []. cbn [s_cur s_rd opt_agg]. rewrite !set_nth_length. repeat split; try assumption.
+        -- unfold expected, ok. rewrite Ed. cbn [snd]. rewrite H2. exact Hm.
+        -- exists []. cbn [s_cur s_rd orep]. rewrite !set_nth_length. repeat split; try assumption.
            intros r' Hr'. destruct (Nat.eq_dec r r') as [<-|Hne].
            ++ rewrite !set_nth_same by lia.
-              apply (rinv_intro _ _ _ _ _ [] []); cbn [r_unrep r_entry r_last map concat app]; try reflexivity; try discriminate.
+              apply (rinv_intro _ _ _ _ _ [] []); cbn [r_unrep r_entry r_last concat app].
+              ** constructor.
+              ** reflexivity.
+              ** reflexivity.
               ** intros Hf. contradiction.
               ** intros Hc. rewrite Hc in Ed. discriminate.
            ++ rewrite !set_nth_other by exact Hne. apply Hmid. exact Hr'.
@@ -191,32 +200,33 @@ Proof.
                        | Some l => merge_opt o c merged l
                        | None => merged
                        end).
-        assert (Hres : (result = None /\ total = []) \/ result = Some (A total)).
-        { unfold result. destruct Hlast as [[Hn Hp]|Hs].
-          - rewrite Hn. subst prev. cbn [app] in Htot. unfold merged.
-            destruct us as [|u us]; [left; split; [reflexivity|exact Htot]|right; rewrite Htot; reflexivity].
-          - rewrite Hs. right. unfold merge_opt, merged.
-            destruct us as [|u us].
-            + rewrite <- A_nil, A_merge. cbn [concat app] in *. rewrite app_nil_r in Htot. rewrite Htot. reflexivity.
-            + rewrite A_merge, A_perm_swap, Htot. reflexivity. }
+        assert (Hres : orep result total).
+        { unfold result. destruct Hlast as [[Hn Hp]|(l & Hs & Hl)].
+          - rewrite Hn. subst prev. cbn [app] in Htot. rewrite Htot. exact Hm.
+          - rewrite Hs. unfold merge_opt. cbn [orep]. rewrite Htot. apply Rep_swap.
+            destruct merged as [m|]; cbn [orep] in Hm.
+            + apply Rep_merge; assumption.
+            + rewrite (Hmn eq_refl). cbn [concat]. apply (Rep_merge _ _ [] prev Rep_new Hl). }
         split.
-        -- unfold expected. rewrite Ed. fold result.
-           destruct Hres as [[-> Hn] | ->]; cbn [ok snd]; [exact Hn|reflexivity].
-        -- exists []. cbn [s_cur s_rd opt_agg]. rewrite !set_nth_length. repeat split; try assumption.
+        -- unfold expected, ok. rewrite Ed. cbn [snd]. fold result. exact Hres.
+        -- exists []. cbn [s_cur s_rd orep]. rewrite !set_nth_length. repeat split; try assumption.
            intros r' Hr'. destruct (Nat.eq_dec r r') as [<-|Hne].
            ++ rewrite !set_nth_same by lia. fold result.
-              apply (rinv_intro _ _ _ _ _ [] total); cbn [r_unrep r_entry r_last map concat app]; try reflexivity; try discriminate.
+              apply (rinv_intro _ _ _ _ _ [] total); cbn [r_unrep r_entry r_last concat app].
+              ** constructor.
+              ** reflexivity.
+              ** reflexivity.
               ** intros Hf. contradiction.
               ** intros _. split; [rewrite app_nil_r; reflexivity|]. split; [|discriminate].
-                 destruct Hres as [[-> Hn] | ->]; [left; split; [reflexivity|exact Hn]|right; reflexivity].
+                 destruct result as [res|]; cbn [orep] in Hres; [right; exists res; split; [reflexivity|exact Hres]|left; split; [reflexivity|exact Hres]].
            ++ rewrite !set_nth_other by exact Hne. apply Hmid. exact Hr'.
     + (* nothing was ever stashed for this reader *)
       specialize (H3 eq_refl). subst us. cbn [concat] in H2.
       split.
-      * unfold expected. destruct (is_delta (nth r temps TDelta)) eqn:Ed; cbn [ok snd]; [exact H2|].
+      * unfold expected, ok. destruct (is_delta (nth r temps TDelta)) eqn:Ed; cbn [orep snd]; [exact H2|].
         assert (Ht : nth r temps TDelta = TCumul) by (destruct (nth r temps TDelta); [discriminate|reflexivity]).
         destruct (H5 Ht) as (Htot & _ & Hp). rewrite (Hp eq_refl) in Htot. exact Htot.
-      * exists []. cbn [s_cur s_rd opt_agg]. rewrite set_nth_length. repeat split; try assumption.
+      * exists []. cbn [s_cur s_rd orep]. rewrite set_nth_length. repeat split; try assumption.
         intros r' Hr'. destruct (Nat.eq_dec r r') as [<-|Hne].
         -- rewrite set_nth_same by lia. pose proof (Hmid r Hr') as Hm. rewrite H2 in Hm. exact Hm.
         -- rewrite set_nth_other by exact Hne. apply Hmid. exact Hr'.
@@ -224,7 +234,7 @@ Qed.
 
 Definition valid_sop (op : sop) : Prop := match op with SRec _ => True | SCollect r => (r < n)%nat end.
 
-Theorem series_lossless_inv : forall l st pend total,
+Theorem series_rep_inv : forall l st pend total,
   inv st pend total -> Forall valid_sop l ->
   Forall2 ok (expect_sops temps pend total l) (run_sops o c temps st l).
 Proof.
@@ -241,8 +251,24 @@ Proof.
       * apply IH; assumption.
 Qed.
 
-Theorem series_lossless_lemma : forall l, Forall valid_sop l ->
+Theorem series_rep : forall l, Forall valid_sop l ->
   Forall2 ok (expect_sops temps (repeat [] n) [] l) (run_sops o c temps (sstate0 n) l).
-Proof. intros l Hv. apply series_lossless_inv; [apply inv_init|exact Hv]. Qed.
+Proof. intros l Hv. apply series_rep_inv; [apply inv_init|exact Hv]. Qed.
 
 End Series.
+
+(* ---- instance: an instrument kind with exact addition, "represents" = "is the aggregation of" ---- *)
+Definition ok_eq (o : ops) (c : cfg) (e : string * list Z) (out : option hist) : Prop :=
+  match out with None => snd e = [] | Some h => h = agg o c (snd e) end.
+
+Theorem series_lossless_lemma : forall o c, exact_add o -> forall temps l, Forall (valid_sop temps) l ->
+  Forall2 (ok_eq o c) (expect_sops temps (repeat [] (length temps)) [] l)
+          (run_sops o c temps (sstate0 (length temps)) l).
+Proof.
+  intros o c He temps l Hv.
+  apply (series_rep o c temps (fun h xs => h = agg o c xs)); try assumption.
+  - reflexivity.
+  - intros h xs v ->. unfold agg. rewrite fold_left_app. reflexivity.
+  - intros a b xs ys -> ->. apply merge_homomorphism_lemma. exact He.
+  - intros h xs ys ->. apply agg_perm; [exact He|apply Permutation_app_comm].
+Qed.
